@@ -10,7 +10,7 @@ from props import c03
 PROPERTY = 'C01'
 LEVEL = 'exploration'
 RULE = ('G1 programs (every statement/expression form and literal spelling, four layout regimes), the repository '
-        'snippets that calmjs accepts, an enumerated family of nested array literals with holes in every position, programs made long by one sibling list of 1200 (thorough: 5000) statements / declarations / arguments / parameters / properties / elements / clauses / operands, and the adjacency product of C02 (slot templates x operand classes; every 12th case per quick run), x indentation strings drawn from text(" \\t", max 8) incl. empty. Oracle: '
+        'snippets that calmjs accepts, an enumerated family of nested array literals with holes in every position, every reserved word as a dotted property name (and the other kinds of expression end) as the value of the last property of an object literal - the place where pretty output ends a line without a semicolon, programs made long by one sibling list of 1200 (thorough: 5000) statements / declarations / arguments / parameters / properties / elements / clauses / operands, and the adjacency product of C02 (slot templates x operand classes; every 12th case per quick run), x indentation strings drawn from text(" \\t", max 8) incl. empty. Oracle: '
         'o = pretty_print(parse(src), ind); (a) calmjs re-parses o to the same canonical tree; (b) the independent '
         'reference parser R1 accepts o and reads the same tree; (c) pretty_print(parse(o), ind) == o byte for byte; (d) histories: a family of 330 member-access / sign / division programs over every literal spelling is printed in one process in drawn orders (forwards, backwards, again), each output judged by (a)-(c) and required to equal the first output for that program. '
         'Sources calmjs rejects are outside the quantifier, and sources on which calmjs and the reference parser already disagree belong to C03 (both counted, not judged). non-trivial = tree with >= 4 node kinds and '
@@ -148,6 +148,19 @@ def run_history(acc, opens, history, one=None):
 INDENTS = st.one_of(st.sampled_from(['  ', '    ', '\t', '', ' ']), st.text(alphabet=' \t', max_size=8))
 
 
+def line_end_family():
+    """the value of the last property of an object literal is the one place where the pretty printer ends a
+    line with an arbitrary expression and no semicolon: every reserved word as a dotted property name, and the
+    other kinds of expression end, in that place"""
+    ends = ['it.' + w for w in sorted(gen_program.RESERVED_NAMES)] + [
+        'a++', 'a--', 'b', '1', '1.', '/re/', '/re/g', 'function() {}', '{}', '[1]', '"s"', 'a.b', 'a()', 'new A',
+        'this', '-a', 'typeof a', 'a in b', 'x ? y : z', 'a[0]', 'a / 2', 'it.get', 'it.set', 'null', 'true']
+    for e in ends:
+        yield 'x = {a: 1, b: %s};' % e
+        yield 'f({p: %s}, {q: {r: %s}});\n++g;' % (e, e)
+        yield 'y = {get a() { return %s }, b: %s}\n--h' % (e, e)
+
+
 def plan(tier, seed):
     from harness import refgate
     refgate.run(200 if tier == 'quick' else 2000)
@@ -224,4 +237,6 @@ def run_shard(shard):
                 one(src, indent, 'corpus')
         for src in gen_program.array_shapes():
             one(src, '  ', 'array_shapes')
+        for src in line_end_family():
+            one(src, '  ', 'line_end')
     return acc.result()
